@@ -24,7 +24,9 @@ becomes the unknown license those words spell, and the text parses to the tree o
 premises on the table: no stored name of several words contains an operator word or a parenthesis
 (`OpWordFree` — the proviso "no longer known name extends beyond the operand" made a property of the
 table), no name reads as a bare operator (`KwOwned`), and each name belongs to one license
-(`OwnedByV`, inside `SegFor`).
+(`OwnedByV`, inside `SegFor`). `C04_in_context_proviso` drops the premise on the table: for any table,
+whenever no occurrence of a stored name in the text reaches across a segment boundary — the proviso
+itself, as a decidable premise on the text.
 -/
 namespace LE
 variable {V : Type}
@@ -146,5 +148,19 @@ theorem C04_in_context (c : Cls) (hc : ClsOK c) (T : Table) (hop : OpWordFree c 
     (hcov : segPieces segs = wordPieces c text) (e : Expr Atom) (hparse : BP.parse ts = .ok e) :
     parseFull c T false false false text = .ok e :=
   parse_spelled c hc T hop hkw ts segs hs text hcov e hparse
+
+/-- **C04 (an operand wherever it stands, any table)**: the same for *every* table in which no name reads as a
+    bare operator — also tables whose multi-word names contain operator words (`GPL 2.0 or later`) —
+    under the proviso of the property, stated on the text: no occurrence of a stored name reaches across
+    the boundary of a segment, i.e. no longer known name extends beyond an operand (`hwithin`: every
+    match of the scan over the text starts and ends inside one segment). -/
+theorem C04_in_context_proviso (c : Cls) (hc : ClsOK c) (T : Table) (hkw : KwOwned c T)
+    (ts : List (BP.Tok Atom)) (segs : List (Seg TVal)) (hs : SegsFor c T ts segs) (text : Str)
+    (hcov : segPieces segs = wordPieces c text)
+    (hwithin : ∀ k ∈ (buildTrie c T).iter c text true, k.val.isSome = true →
+      ∃ sg ∈ segs, ∃ p ∈ sg.1, ∃ p' ∈ sg.1, k.s = p.start ∧ k.e = p'.stop)
+    (e : Expr Atom) (hparse : BP.parse ts = .ok e) :
+    parseFull c T false false false text = .ok e :=
+  parse_spelled_within c hc T hkw ts segs hs text hcov hwithin e hparse
 
 end LE
